@@ -484,7 +484,8 @@ func (t *Collection) VisitItemsRandom(
 	var j int
 	v := func(i *Item, depth uint64) bool {
 		if j == 0 {
-			blockStore = append(blockStore, i.Key)
+			// A copy: the visit holds no reference on i once its node has been left.
+			blockStore = append(blockStore, append([]byte(nil), i.Key...))
 			j = 1
 		} else if j >= lenBlock {
 			j = 0
@@ -525,7 +526,7 @@ func (t *Collection) VisitItemsRandom(
 					return visitor(itm, depth)
 				}
 				first = true
-				blockStore[i] = itm.Key
+				blockStore[i] = append([]byte(nil), itm.Key...)
 				return false
 			}
 			err = t.VisitItemsAscendEx(si, true, vis)
@@ -562,7 +563,8 @@ func (t *Collection) VisitItemsAscendBlockEx(
 	var j int
 	v := func(i *Item, depth uint64) bool {
 		if j == 0 {
-			blockStore = append(blockStore, i.Key)
+			// A copy: the visit holds no reference on i once its node has been left.
+			blockStore = append(blockStore, append([]byte(nil), i.Key...))
 			j = 1
 		} else if j >= lenBlock {
 			j = 0
